@@ -25,6 +25,10 @@ pub struct Case {
     pub changes: Vec<Ch>,
     /// the interrupted snapshot
     pub reclaim: bool,
+    /// 0 = only database d is queued; 1 = the neighbour database e is queued for a RECLAIMING snapshot before d's
+    /// request, 2 = after it (both are stored by the same declutter step, the queue is a stack)
+    #[serde(default)]
+    pub neighbour: u8,
 }
 
 fn val(key: &str, len: usize, gen: u32) -> String {
@@ -55,7 +59,8 @@ pub fn case_strategy() -> impl Strategy<Value = Case> {
         2 => key.clone().prop_map(|key| Ch::Remove { key }),
         1 => Just(Ch::Inc { key: "num".to_string() }),
     ];
-    (before, any::<bool>(), prop::collection::vec(ch, 1..8), any::<bool>()).prop_map(|(before, reclaim_before, changes, reclaim)| Case { before, reclaim_before, changes, reclaim })
+    (before, any::<bool>(), prop::collection::vec(ch, 1..8), any::<bool>()).prop_map(|(before, reclaim_before, changes, reclaim)| Case { before, reclaim_before, changes, reclaim, neighbour: 0 })
+        .prop_flat_map(|c| prop_oneof![3 => Just(0u8), 1 => Just(1u8), 1 => Just(2u8)].prop_map(move |n| Case { neighbour: n, ..c.clone() }))
 }
 
 /// the fixed family of before/after datasets
@@ -79,9 +84,16 @@ pub fn fixed_family() -> Vec<Case> {
         for reclaim_before in [false, true] {
             for changes in change_sets.iter() {
                 for reclaim in [false, true] {
-                    out.push(Case { before: before.clone(), reclaim_before, changes: changes.clone(), reclaim });
+                    out.push(Case { before: before.clone(), reclaim_before, changes: changes.clone(), reclaim, neighbour: 0 });
                 }
             }
+        }
+    }
+    // the neighbour's reclaiming snapshot queued in the same declutter step, before and after d's incremental request
+    let small: Vec<(String, usize)> = vec![("k0".into(), 8), ("k1".into(), 8), ("k2".into(), 8)];
+    for neighbour in [1u8, 2] {
+        for changes in change_sets.iter().take(5) {
+            out.push(Case { before: small.clone(), reclaim_before: false, changes: changes.clone(), reclaim: false, neighbour });
         }
     }
     out
@@ -133,7 +145,17 @@ pub fn run_case(ctx: &Ctx, case: &Case) -> Outcome {
             }
         }
     }
+    if case.neighbour == 1 {
+        a.send(&node, "use-db e etok");
+        a.send(&node, "snapshot true");
+        a.send(&node, "use-db d dtok");
+    }
     a.send(&node, &format!("snapshot {}", case.reclaim));
+    if case.neighbour == 2 {
+        a.send(&node, "use-db e etok");
+        a.send(&node, "snapshot true");
+        a.send(&node, "use-db d dtok");
+    }
     node.pump();
     let after: DbImage = image_of(&node, "d").unwrap();
     let (res, images) = crash::record(&dir, &root, 4000, || catch_unwind(AssertUnwindSafe(|| node.snapshot_tick())));
@@ -170,6 +192,9 @@ pub fn run_case(ctx: &Ctx, case: &Case) -> Outcome {
             boots += 1;
             match image_of(&n, "e") {
                 Some(e) if e == e_before => {}
+                // (when the neighbour itself is being stored by a reclaiming snapshot in this step, its damage is the recorded
+                // reclaim-window finding, whatever d's snapshot is)
+                other if case.neighbour != 0 => return Some((format!("C11|{}|reclaim-of-the-neighbour|before-{}", if other.is_none() { "database-missing" } else { "keys-lost-or-changed" }, cls), format!("{}: database e (reclaiming snapshot in the same step) was {:?}, loaded {:?}", at, e_before, other))),
                 other => return Some((format!("C11|neighbour-database-changed|{}|before-{}", mode, cls), format!("{}: database e was {:?}, loaded {:?}", at, e_before, other))),
             }
             let loaded = match image_of(&n, "d") {
@@ -220,7 +245,9 @@ pub fn run_case(ctx: &Ctx, case: &Case) -> Outcome {
         let verdict = verdict.map(|(sig, detail)| {
             let parts: Vec<&str> = sig.split('|').collect();
             let kind = parts.get(1).cloned().unwrap_or("");
-            let folded = if case.reclaim {
+            let folded = if parts.get(2).cloned() == Some("reclaim-of-the-neighbour") {
+                if kind == "database-missing" { "C11|reclaim|database-missing".to_string() } else { "C11|reclaim|keys-lost-or-changed".to_string() }
+            } else if case.reclaim {
                 match kind {
                     "boot-fails" | "database-missing" | "neighbour-database-changed" | "metadata-changed" => format!("C11|reclaim|{}", kind),
                     _ => "C11|reclaim|keys-lost-or-changed".to_string(),
